@@ -22,10 +22,11 @@ CONSTANTS
   ChanTO = 2
   MaxLife = 3600
   Denied <- MCNoDenied
+  Vetoable = {}
   Toks = {"none"}
   ResvTO = 30
   QuotaDenied = {}
   MaxDepth = 8
 CONSTRAINT DepthBound
 INVARIANTS TypeOK C01_NeverInstalled NoOrphans C08_Bijection C08_Range C19_ReservedOnce
-PROPERTIES C01_OnlyAuthorised C02_OnlyPermitted C04_Isolation C05_WithinLimitsDelivered C06_Exact C07_FullRestart C08_Conflict400 C19_SecondAllocate C19_TokenNeedsReservation
+PROPERTIES C01_OnlyAuthorised C01_AskedEveryTime C02_OnlyPermitted C04_Isolation C05_WithinLimitsDelivered C06_Exact C07_FullRestart C08_Conflict400 C19_SecondAllocate C19_TokenNeedsReservation
